@@ -10,6 +10,7 @@
 package satisfaction_levels
 
 import (
+	"math"
 	"github.com/Azbesciak/RealDecisionMaker/lib/model"
 	"github.com/Azbesciak/RealDecisionMaker/lib/utils"
 )
@@ -26,7 +27,8 @@ func (s *IdealCoefficientSatisfactionLevels) Spec_Initialize(dmp *model.Decision
 }
 
 func (s *IdealCoefficientSatisfactionLevels) Spec_HasNext() bool {
-	return s.manager.HasNext(s)
+	// C14/C20: the series is finite - it also ends when a step is too small to change the level
+	return !s.exhausted && s.manager.HasNext(s)
 }
 
 func (s *IdealCoefficientSatisfactionLevels) Spec_Next() model.Weights {
@@ -34,13 +36,16 @@ func (s *IdealCoefficientSatisfactionLevels) Spec_Next() model.Weights {
 	for i, c := range s.criteria {
 		valRange := s.criteriaValuesRanges[i]
 		delta := valRange.Spec_Diff() * s.currentValue
+		// C14: min + r x range for gain, max - r x range for cost, never outside [min, max] (rounding at r = 1)
 		if c.Spec_Multiplier() > 0 {
-			weights[c.Id] = valRange.Min + delta
+			weights[c.Id] = math.Min(valRange.Min+delta, valRange.Max)
 		} else {
-			weights[c.Id] = valRange.Max - delta
+			weights[c.Id] = math.Max(valRange.Max-delta, valRange.Min)
 		}
 	}
-	s.currentValue = s.manager.UpdateValue(s.currentValue, s.Coefficient)
+	following := s.manager.UpdateValue(s.currentValue, s.Coefficient)
+	s.exhausted = following == s.currentValue
+	s.currentValue = following
 	return weights
 }
 
